@@ -203,6 +203,8 @@ def defset(draw, max_items=8, keywords=False, array_typedefs=True):
             srcs = [("scalar", s) for s in SCALARS[:12]] + [("alias", a) for a in env["aliases"]] + [("struct", s) for s in env["structs"]] + [("enum", e) for e in env["enums"]]
             # by tag: 'typedef struct S1 T;' / 'typedef struct _TS3 *P;' (the tag of an earlier 'typedef struct _TS3 {...} TS3;')
             srcs += [("tagged", s) for s in env["structs"]] * 2 + [("tagged", t_) for t_ in env.get("tags", {})] * 3
+            # further names for a structure that has only ever been named by its typedef
+            srcs += [("alias", a) for a in env.get("untagged", [])] * 4
             kind_, src = draw(st.sampled_from(srcs))
             deps = set() if kind_ == "scalar" else {src}
             if kind_ == "tagged":
@@ -228,6 +230,8 @@ def defset(draw, max_items=8, keywords=False, array_typedefs=True):
                 env["aliases"][nm_] = True
             if tag:
                 env.setdefault("tags", {})[tag.strip()] = k2
+            else:
+                env.setdefault("untagged", []).extend(names)
             items.append(Item("typedef_struct", name, text, deps, names=allnames))
     return items
 
